@@ -12,3 +12,4 @@ pub mod folddrop;
 pub mod function;
 pub mod variable;
 pub mod iterloop;
+pub mod typetext;
